@@ -163,6 +163,9 @@ mut('c03-fftw-plan-any-layout', 'C03', 'odl/trafos/backends/pyfftw_bindings.py',
 mut('c03-matrix-dot-out-any-layout', 'C03', 'odl/operator/tensor_ops.py',
     "                    if out_arr.flags.c_contiguous:\n                        self.matrix.dot(x, out=out_arr)",
     "                    if True:\n                        self.matrix.dot(x, out=out_arr)")
+mut('c03-vector-sum-writes-into-result', 'C03', 'odl/operator/operator.py',
+    "            return self.operator(x) + self.vector\n",
+    "            out = self.operator(x)\n            out += self.vector\n            return out\n")
 
 # ---- C10 -----------------------------------------------------------------
 mut('c10-ccl1-guard', 'C10', 'odl/solvers/nonsmooth/proximal_operators.py',
